@@ -16,7 +16,10 @@ from .program import children, strip, walk, locstr, literal_value
 
 PRIMS = ('uint8', 'int32_le', 'int32_be', 'int64_le', 'int64_be', 'double_le', 'double_be')
 WIDTH = {'uint8': 1, 'int32_le': 4, 'int32_be': 4, 'int64_le': 8, 'int64_be': 8,
-         'double_le': 8, 'double_be': 8}
+         'double_le': 8, 'double_be': 8,
+         # not a primitive of the format: one byte read in place as a signed number (-128..127), which is what a
+         # decoder takes when it widens a (signed) char; it matches no layout item and no encoder item
+         'int8': 1}
 ENG = 'djinterop::engine::'
 
 # std algorithms that write a run of bytes through an output cursor and return the advanced cursor
@@ -650,10 +653,12 @@ class Extractor:
         g.items = normalise(g.items)
         return g
 
-    def _late_locals(self, f, env):
+    def _late_locals(self, f, env, root=None):
         """A local that is later stored into a member of the result (possibly
-        through a conversion, possibly through further locals) is named after that member."""
+        through a conversion, possibly through further locals) is named after that member.
+        (root: the part of the body to look at - a loop body, once its element object has a name.)"""
         cand = {}
+        body = root if root is not None else f.body
 
         def feed(rhs, name):
             for y in walk(rhs):
@@ -666,7 +671,7 @@ class Extractor:
                     if '*' in t:
                         continue
                     cand.setdefault(vid, set()).add(name)
-        for n in walk(f.body):
+        for n in walk(body):
             lhs = rhs = None
             if n.get('kind') == 'BinaryOperator' and n.get('opcode') == '=':
                 lhs, rhs = children(n)[0], children(n)[1]
@@ -687,7 +692,7 @@ class Extractor:
         # from carry that member's value (`const auto key_num = raw_key == 0 ? nullopt : raw_key;`)
         for _ in range(3):
             grew = False
-            for n in walk(f.body):
+            for n in walk(body):
                 if n.get('kind') == 'VarDecl' and len(cand.get(n.get('id'), ())) == 1:
                     init = [x for x in children(n) if not x['kind'].endswith('Attr')]
                     if init:
@@ -808,6 +813,8 @@ class Extractor:
                                 if y.get('kind') == 'DeclRefExpr' and (y.get('referencedDecl') or {}).get('kind') == 'VarDecl':
                                     env2[y['referencedDecl']['id']] = '%s[]' % cont
                                     g.notes.append(('sized', cont, cnt))
+            # locals of the body (structured bindings) that are then stored into a member of that element
+            self._late_locals(f, env2, root=body)
             sub = []
             self._dec_stmt(body, env2, f, g, sub, depth)
             out.append(('repeat', cnt, sub))
@@ -1231,12 +1238,16 @@ class Extractor:
                 if et not in U8_TYPES + S8_TYPES:
                     g.unknown.append('a %s is read in place through the cursor at %s: not one of the primitives' % (et, locstr(n)))
                     continue
-                if et in S8_TYPES and not self._made_unsigned(n, par):
-                    g.unknown.append('the byte read through a %s pointer at %s is used without first being converted to an '
-                                     'unsigned 8-bit type: for 128..255 it is not the value the uint8 primitive reads'
-                                     % (et, locstr(n)))
-                    continue
-                raw.reads.append((off[0], off[1], {'': 1}, ('prim', 'uint8', dest if whole(n) else 'expr(read)'), locstr(n)))
+                prim = 'uint8'
+                if et in S8_TYPES:
+                    conv = self._first_conversion(n, par)
+                    if conv is None:
+                        g.unknown.append('the byte read through a %s pointer at %s is kept as a %s: what number it stands for '
+                                         'is decided where it is used, which the extractor does not follow' % (et, locstr(n), et))
+                        continue
+                    if conv != 'u8':
+                        prim = 'int8'       # widened as a signed number: 128..255 arrive as -128..-1
+                raw.reads.append((off[0], off[1], {'': 1}, ('prim', prim, dest if whole(n) else 'expr(read)'), locstr(n)))
                 continue
             # ---- a range
             rng = tgt = None
@@ -1267,8 +1278,9 @@ class Extractor:
             raw.reads.append((rng[0], rng[1], rng[2], ('bytes', ln, tgt), locstr(n)))
 
     @staticmethod
-    def _made_unsigned(n, par):
-        """The first conversion applied to the value read at n makes it an unsigned 8-bit number."""
+    def _first_conversion(n, par):
+        """The first integer conversion applied to the value read at n: 'u8' (to an unsigned 8-bit type: the byte
+        as 0..255), 'other' (to any other type: the value of the signed char), None (none: it stays a char)."""
         p_ = par.get(id(n))
         while p_ is not None:
             k = p_.get('kind')
@@ -1276,9 +1288,13 @@ class Extractor:
                 p_ = par.get(id(p_))
                 continue
             if k in ('ImplicitCastExpr', 'CXXStaticCastExpr', 'CStyleCastExpr', 'CXXFunctionalCastExpr'):
-                return _bare(p_.get('type')) in U8_TYPES
-            return False
-        return False
+                t = _bare(p_.get('type'))
+                if t in S8_TYPES:
+                    p_ = par.get(id(p_))        # char -> signed char and the like: still the signed value
+                    continue
+                return 'u8' if t in U8_TYPES else 'other'
+            return None
+        return None
 
     def _dec_advance(self, e, target, env, f, g, out):
         """The cursor is set to (or returned as) `e` = cursor + n."""
